@@ -452,3 +452,44 @@ func (p *Program) onlyCalledWithin(fi *FuncInfo, within []*FuncInfo) bool {
 	}
 	return ok
 }
+
+// isFieldOf: e selects some field of the named struct type.
+func (p *Program) isFieldOf(info *types.Info, e ast.Expr, typ string) bool {
+	fv := fieldOf(info, e)
+	if fv == nil {
+		return false
+	}
+	nt := p.NamedType(typ)
+	if nt == nil {
+		return false
+	}
+	st, ok := nt.Underlying().(*types.Struct)
+	if !ok {
+		return false
+	}
+	for i := 0; i < st.NumFields(); i++ {
+		if st.Field(i) == fv {
+			return true
+		}
+	}
+	return false
+}
+
+// fieldsTyped: the fields of the named struct type whose type prints as typ (e.g. "sync.Once", "*gocql.Iter").
+func (p *Program) fieldsTyped(typeName string, pred func(types.Type) bool) []*types.Var {
+	nt := p.NamedType(typeName)
+	if nt == nil {
+		return nil
+	}
+	st, ok := nt.Underlying().(*types.Struct)
+	if !ok {
+		return nil
+	}
+	var out []*types.Var
+	for i := 0; i < st.NumFields(); i++ {
+		if pred(st.Field(i).Type()) {
+			out = append(out, st.Field(i))
+		}
+	}
+	return out
+}
